@@ -723,10 +723,13 @@ class MyPyAstVisitor:
         unanalyzed_type: mp_types.Type | None,
         is_static: bool = True,
     ) -> list[Attribute]:
-        assert isinstance(lvalue, mp_nodes.NameExpr | mp_nodes.MemberExpr | mp_nodes.TupleExpr)
         attributes: list[Attribute] = []
 
-        if hasattr(lvalue, "name"):
+        if isinstance(lvalue, mp_nodes.StarExpr):
+            # The rest of an unpacked sequence, e.g. "first, *rest = values"
+            lvalue = lvalue.expr
+
+        if isinstance(lvalue, mp_nodes.NameExpr | mp_nodes.MemberExpr):
             if self._is_attribute_already_defined(lvalue.name):
                 return attributes
 
@@ -734,18 +737,12 @@ class MyPyAstVisitor:
                 self._create_attribute(lvalue, unanalyzed_type, is_static),
             )
 
-        elif hasattr(lvalue, "items"):
-            lvalues = list(lvalue.items)
-            for lvalue_ in lvalues:
-                if not hasattr(lvalue_, "name"):  # pragma: no cover
-                    raise AttributeError("Expected value to have attribute 'name'.")
+        elif isinstance(lvalue, mp_nodes.TupleExpr | mp_nodes.ListExpr):
+            # The items can be names, starred names or tuples again, e.g. "(a, b), *c = values"
+            for lvalue_ in lvalue.items:
+                attributes.extend(self._parse_attributes(lvalue_, unanalyzed_type, is_static))
 
-                if self._is_attribute_already_defined(lvalue_.name):
-                    continue
-
-                attributes.append(
-                    self._create_attribute(lvalue_, unanalyzed_type, is_static),
-                )
+        # Other assignment targets (e.g. "self.data[key] = value") change an existing object and define no attribute
 
         return attributes
 
